@@ -314,11 +314,51 @@ C05(job) ==
        exposed |-> (rn.status = "completed") => \A k \in DOMAIN vf : (k \in Names(job.hidden) \/ k \in DOMAIN vn),
        args   |-> (rn.status = "completed") => \A n \in leaves : ArgsBag(rn.calls, n) = ArgsBag(rf.calls, n) ]
 
+(***************************************************************************)
+(* C14 -- interrupts.  A paused run identifies an interrupt node, shows    *)
+(* its first input value and the key to answer under; nothing that         *)
+(* depends on the interrupt's outputs has been invoked; every interrupt    *)
+(* upstream of it is already resolved (one pause at a time, in dependency  *)
+(* order); the values returned are correct values of completed work.  A    *)
+(* run that completes (all answers supplied or handlers answering) equals  *)
+(* the run in which the handlers return the answers themselves.            *)
+(***************************************************************************)
+RECURSIVE DependsOn(_, _, _)
+DependsOn(pr, S, n) ==          \* node index n (transitively) consumes an output of a node in S
+  LET direct == {i \in NodeIdx(pr) : \E j \in S :
+                    Names(pr.nodes[j].outputs) \cap (Names(pr.nodes[i].inputs) \cup Names(pr.nodes[i].wait_for)) # {}}
+      nxt == S \cup direct
+  IN IF nxt = S THEN n \in S ELSE DependsOn(pr, nxt, n)
+
+AutoProg(pr) == [pr EXCEPT !.nodes = [i \in NodeIdx(pr) |-> [pr.nodes[i] EXCEPT !.pause_at = <<>>]]]
+
+C14(job) ==
+  LET r == RunOf(job)
+      pr == job.prog
+      auto == RunProg(AutoProg(pr), "", job.base, WorldOf(job), job.mode)
+      top == r.pause.path \in NodeNames(pr)
+      pi == IdxOf(pr, r.pause.path)
+      nd == pr.nodes[pi]
+  IN IF r.status = "paused" /\ top THEN
+       [ names_interrupt |-> IsIntr(nd),
+         key   |-> r.pause.key = nd.outputs[1],
+         value |-> Len(nd.inputs) > 0 => r.pause.value = Resolve(pr, [vals |-> r.vals], nd, nd.inputs[1]),
+         dependants_idle |-> \A k \in 1..Len(r.calls) : r.calls[k].frame = "" =>
+                                ~(IdxOf(pr, r.calls[k].node) # pi /\ DependsOn(pr, {pi}, IdxOf(pr, r.calls[k].node))),
+         in_order |-> \A j \in NodeIdx(pr) : (IsIntr(pr.nodes[j]) /\ j # pi /\ DependsOn(pr, {j}, pi))
+                          => \A o \in DataOutputs(pr.nodes[j]) : o \in DOMAIN r.vals,
+         partial |-> \A k \in DOMAIN FilterOut(pr, r.vals, job.select) :
+                        k \in DOMAIN auto.vals /\ (auto.vals[k] = r.vals[k] \/ k \in PairKeys(job.provided)) ]
+     ELSE IF r.status = "completed" THEN
+       [ same_as_auto |-> auto.status = "completed" /\ FilterOut(pr, r.vals, job.select) = FilterOut(pr, auto.vals, job.select) ]
+     ELSE [ na |-> TRUE ]
+
 \* dispatch used by the Predict_* configurations
 L1(prop, job) == CASE prop = "C01" -> C01(job)
                    [] prop = "C03" -> C03(job)
                    [] prop = "C04" -> C04(job)
                    [] prop = "C05" -> C05(job)
+                   [] prop = "C14" -> C14(job)
                    [] prop = "C17" -> C17(job)
                    [] prop = "C16" -> C16(job)
                    [] prop = "C11" -> C11(job)
